@@ -164,6 +164,10 @@ pub fn run(ctx: &mut RunCtx) -> Result<(), Violation> {
     } else if big == 11 && (ctx.thorough || ctx.run % 96 == 11) {
         crate::scenario::set_target_override(Some(2048 - w.usize(9)));
         ctx.st.probe("domain_2^11");
+    } else if (ctx.thorough && ctx.run % 60 == 17) || (!ctx.thorough && ctx.run % 120 == 17) {
+        // the proving-domain FFTs themselves take the parallel paths from 2^12 rows on
+        crate::scenario::set_target_override(Some(4096 - w.usize(9)));
+        ctx.st.probe("domain_2^12");
     }
     let sc = gen_scenario(ctx, &mut w, &ScenCfg { class, heavy: false, raw: true, exact_target: true, max_ops: 20 });
     let sig = scenario_sig(&sc);
